@@ -54,6 +54,8 @@ class Fixtures(dict):
             "oct16": lambda: A.jkey(scen.key("oct16"), "bytes"),
             "octlong": lambda: A.jkey(scen.key("oct200"), "bytes"),
             "ec_ops": lambda: A.jkey({**scen.key("P-256", 2), "key_ops": ["sign", "verify"]}, "dict"),     # declares its operations in a list          # longer than the block size of every HS* hash
+            # a key whose kid is the empty string (a legal kid), and a set that holds it
+            "oct_emptykid": lambda: A.jkey({**scen.key("oct32", 3), "kid": ""}, "dict"),
             "sender1pu": lambda: A.jkey(scen.key("X25519", 5), "dict"),      # one ECDH-1PU sender talking to several kid-less peers
             "rcpt1pu": lambda: A.jkey(scen.key("X25519", 6), "dict"),
             "set": lambda: KeySet([A.jkey(scen.key("oct32", 1), "bytes"), A.jkey(scen.key("oct32", 2), "bytes")]),
@@ -75,13 +77,13 @@ def fixtures(eager=()):
     return f
 
 
-ALL_FIXTURES = ["oct", "ec", "ec_pub", "rsa", "ed", "x", "oct16", "octlong", "ec_ops", "sender1pu", "rcpt1pu", "set", "ecset", "jwsreg", "jwereg", "jwereg_custom", "jwsreg_custom"]
+ALL_FIXTURES = ["oct", "ec", "ec_pub", "rsa", "ed", "x", "oct16", "octlong", "ec_ops", "oct_emptykid", "sender1pu", "rcpt1pu", "set", "ecset", "jwsreg", "jwereg", "jwereg_custom", "jwsreg_custom"]
 
 
 def ref_token(alg, kind, which=0, kid=None, payload=PT, bad=False):
     jwk = scen.key(kind, which)
     hdr = {"alg": alg}
-    if kid:
+    if kid is not None:
         hdr["kid"] = kid
     seg = b64.enc(rjws.hdr_json(hdr).encode())
     sig = jws_sign(alg, jwk, rjws.signing_input(seg, payload, True))
@@ -268,6 +270,9 @@ def make_ops():
     add("sign ES256 [ec key declaring key_ops]", lambda f, d: obs_sign(call(jws.serialize_compact, {"alg": "ES256"}, PT, f["ec_ops"]), K("P-256", 2)))
     add("as_dict public [ec key declaring key_ops]", lambda f, d: ("export", tuple(sorted((k, str(v)) for k, v in f["ec_ops"].as_dict(private=False).items() if k != "kid"))))
     add("key set public export [ec key declaring key_ops]", lambda f, d: ("export", json.dumps([{k: v for k, v in e.items() if k != "kid"} for e in KeySet([f["ec_ops"]]).as_dict(private=False)["keys"]], sort_keys=True)))
+    add("as_dict [oct key whose kid is the empty string]", lambda f, d: ("export", tuple(sorted(f["oct_emptykid"].as_dict().items()))))
+    add("verify HS256 naming the empty kid [key set made around the key whose kid is the empty string]",
+        lambda f, d: obs_verify(call(lambda: jws.deserialize_compact(ref_token("HS256", "oct32", 3, kid=""), KeySet([f["oct_emptykid"], A.jkey({**K("oct32", 4), "kid": "other"}, "dict")])))))
     # registering the built-in algorithms again is what a second import path, a plugin or a reloader does; the outcome of it is nothing
     add("register the built-in JWS algorithms again", lambda f, d: ("registered", jws.register_algorithms() is None))
     add("jwt.encode HS256 [oct key]", lambda f, d: obs_sign(call(jwt.encode, {"alg": "HS256"}, {"iss": "joe"}, f["oct"]), K("oct32")))
